@@ -102,10 +102,10 @@ h("C12", "c12", "c12_orient2d_fast_dyadic_g2", "thorough", 3000,
   "D=2 orientation (fast kernel) on the dyadic grids 2^-k*[-2,2]^2, k symbolic in 0..=20: exact sign where |det| >= 1e-10, "
   "DEGENERATE where det = 0 exactly, never the opposite sign inside the documented dead band", LU3)
 for nm, pt in [("origin", "(0,0,0)"), ("corner", "(1,-1,1)")]:
-    h("C12", "c12", f"c12_orient3d_fast_g1_cube_{nm}", "quick" if nm == "origin" else "thorough", 1500,
+    h("C12", "c12", f"c12_orient3d_fast_g1_cube_{nm}", "thorough", 1500,
       f"D=3 orientation (fast kernel): first vertex fixed at {pt}, all 3^9 = 19683 triples of further points in {{-1,0,1}}^3", LU4)
 for form, edge in [("fast", "(0,0)-(1,0)"), ("lifted", "(0,0)-(0,1)"), ("robust1", "(0,0)-(1,0)")]:
-    h("C12", "c12", f"c12_insphere2d_{form}_g1_edge", "quick", 1200,
+    h("C12", "c12", f"c12_insphere2d_{form}_g1_edge", "quick" if form != "robust1" else "thorough", 1200,
       f"D=2 in-sphere ({form}): simplex edge fixed at {edge}, third vertex and query range over all 3^4 = 81 points of "
       "{-1,0,1}^2 x {-1,0,1}^2: exact sign; degenerate => Err or BOUNDARY", LU4 + LU3)
 CUBE_PTS = ["(-1,-1)", "(-1,0)", "(-1,1)", "(0,-1)", "(0,0)", "(0,1)", "(1,-1)", "(1,0)", "(1,1)"]
